@@ -102,6 +102,7 @@ type fnCtx struct {
 }
 
 type frame struct {
+	calleeArgs func(int) string // set while the contract of an external callee is applied: its arguments by index
 	lexPos token.Pos // source position of the clause being evaluated: names resolve to the variables lexically in scope there
 	lastMapRange, lastMapRangeKS, lastMapDom0 string // the map iterator most recently created in this frame
 	evalPos token.Pos // source position of the call site being asserted (incase)
